@@ -35,7 +35,7 @@ def section(title, pred, describe):
 def seeded_desc(item):
     try: return json.load(open(os.path.join(V, item, 'meta.json')))['summary'].replace('|', '\\|')[:160]
     except Exception: return ''
-section('Canaries: the reverse of each fix', lambda i: 'canaries/' in i, lambda i: 'reverts the repair of ' + os.path.basename(i)[:2])
+section('Canaries: the reverse of each fix', lambda i: 'canaries/' in i, lambda i: 'reverts the repair of ' + os.path.basename(i).replace('.patch',''))
 section('Changes seeded by sub-agents from the property text alone', lambda i: i.startswith('seeded/'), seeded_desc)
 section('Design mutants', lambda i: 'mutants/' in i, lambda i: '')
 if len(sys.argv) > 2:
